@@ -105,6 +105,7 @@ class Secure:
         self.moddir = moddir
         self.Env = ckl.functions.Environment
         self.V = V
+        self.last_values = []        # what recent programs returned (or raised): values a program can get hold of
         self.fresh()
 
     def fresh(self):
@@ -124,16 +125,23 @@ class Secure:
             mon.armed = False
         if o.kind == "hang":
             self.fresh()
+        elif o.kind == "value":
+            self.last_values.append(o.value)
+            del self.last_values[:-50]
+        elif o.kind == "rte" and getattr(o.exc, "value", None) is not None:
+            self.last_values.append(o.exc.value)        # an error value is handed to the program's caller as well
+            del self.last_values[:-50]
         return o, env
 
 
-def reachable_functions(it):
-    """every function value reachable from the interpreter: environments, module cache, closures, containers"""
+def reachable_functions(it, roots=None):
+    """every function value reachable from the interpreter (or from the given values): environments, module cache,
+    closures, containers"""
     import ckl.functions as F
     import ckl.values as V
     seen = set()
     found = []
-    stack = [it.base_environment, it.environment]
+    stack = [it.base_environment, it.environment] if roots is None else list(roots)
     while stack:
         x = stack.pop()
         if x is None or id(x) in seen:
@@ -177,6 +185,13 @@ def check_state(ctx, S, tag, canary, before, os_classes):
             ctx.violation("C09:reachable:%s" % fn.name, "%s: OS-touching native %s (%s) is reachable in a secure interpreter" % (
                 tag[1][:300], fn.name, type(fn).__name__), {"src": tag[1]})
     ctx.count("reachability_walks")
+    # ... and what the programs themselves were handed back: a function value in a result is as good as a name
+    for fn in reachable_functions(S.it, roots=S.last_values):
+        ctx.count("functions_in_results")
+        if type(fn).__name__ in os_classes:
+            ctx.violation("C09:returned:%s" % fn.name, "%s: OS-touching native %s (%s) was handed to a secure program as a value" % (
+                tag[1][:300], fn.name, type(fn).__name__), {"src": tag[1]})
+    del S.last_values[:]
     for ev, what, allowed, callee in mon.take():
         ctx.count("audit_events_allowed" if allowed else "audit_events_forbidden")
         if not allowed:
@@ -365,7 +380,7 @@ def run_bind(ctx, legacy, canary, os_classes):
             S.fresh()
             env = S.Env()
             src = "bind_native('%s')" % n if alias is None else "bind_native('%s', '%s')" % (n, alias)
-            o, env = S.run("do %s catch all NULL end" % src, env)
+            o, env = S.run("def bn_result = do %s catch all NULL end; bn_result" % src, env)
             ctx.count("bind_attempts")
             ctx.case(src)
             # whatever got bound: try to use it on the canary
